@@ -465,6 +465,10 @@ def one_dataset(obs, rng, conv, spec, ctx):
         if size >= 2:
             obs.sig(shape_sig, qu.dims, 'quiver', tuple(sorted(sel.items())), geo)
         check_positions(q, 'quiver')
+        # without a user supplied transform the arrows are placed in the coordinate reference system of the dataset, as the
+        # patches are
+        obs.expect(getattr(q, 'transform', None) is ems.data_crs, 'default transform of the quiver is the data CRS of the dataset',
+                   lambda: {'got': repr(getattr(q, 'transform', None))}, mech='default-transform')
         good = check_components(q, expected(qu, sel), expected(qv, sel), 'quiver', {'dims': qu.dims, 'selection': sel})
         if good and len(obs.samples) < 3 and size >= 3:
             obs.sample({'convention': conv, 'grid': face.shape, 'quiver of': ['qu', 'qv'], 'dims': qu.dims, 'selected': sel,
